@@ -199,8 +199,8 @@ def obligations(tier: str):
     for qi, q in enumerate(POOL):
         for ck in range(7):
             for w in (("array",) if tier == "quick" else ("array", "object")):
-                obls.append({"id": "conv%02d.%s.%s" % (qi, hcommon.KIND_NAMES[ck], w), "func": "h_conv", "params": {"query": q, "childkind": ck, "wrap": w, "depth": 1 if tier == "quick" or ck < 5 else 2}, "timeout": t})
-        if "value(" in q or "vv(" in q or "length(" in q:
+                obls.append({"id": "conv%02d.%s.%s" % (qi, hcommon.KIND_NAMES[ck], w), "func": "h_conv", "params": {"query": q, "childkind": ck, "wrap": w, "depth": 1}, "timeout": t})
+        if tier == "thorough" or "value(" in q or "vv(" in q or "length(" in q:
             # a nested call feeding a parameter: the only member of the child holds an arbitrary one-level value
             for ik in range(7):
                 obls.append({"id": "nested%02d.%s" % (qi, hcommon.KIND_NAMES[ik]), "func": "h_conv", "params": {"query": q, "single_member": True, "innerkind": ik, "wrap": "array"}, "timeout": t})
